@@ -332,3 +332,15 @@ Proof.
     first [ vm_compute; reflexivity
           | do 2 eexists; vm_compute; repeat split; reflexivity ].
 Qed.
+
+(* ================================================================== (G) proto/binary Skip from the Go source *)
+(* Skip / SkipFixed32Type / SkipFixed64Type / SkipBytesType are translated from proto/binary/binary_skip.go on every build
+   (gen/Gen_protoskip.v).  For the four wire types of proto3 Skip succeeds exactly when the model's wire decoder wdec_val reads one value
+   of that type from the cursor, and then stands where wdec_val's rest begins; any other wire type: nil and nothing consumed. *)
+From DG Require GoSem Gen_protoskip Check20h GenProtoskipProofs.
+Theorem C10_Skip_from_source :
+  (forall buf rd wt u, bytes_ok buf -> GenProtoskipProofs.in_buf buf rd -> wt = 0 \/ wt = 1 \/ wt = 2 \/ wt = 5 ->
+     Check20h.obs_of (Gen_protoskip.BinaryProtocol_Skip buf rd wt u) = Check20h.skip_obs buf rd wt) /\
+  (forall buf rd wt u, wt <> 0 -> wt <> 1 -> wt <> 2 -> wt <> 5 -> Gen_protoskip.BinaryProtocol_Skip buf rd wt u = (0, buf, rd)).
+Proof. split; [exact GenProtoskipProofs.Skip_is_wdec_val | exact GenProtoskipProofs.Skip_other]. Qed.
+Print Assumptions C10_Skip_from_source.
